@@ -442,6 +442,23 @@ def shard(shard_i, nshards, payload):
                             res.violation(v[0], v[1], v[2], case)
                             good = False
                             break
+                if good and site.endswith("-repeated"):
+                    # a label that says "First ..." covers the first spelling of the name in its file
+                    for d in obs.get("diags", []):
+                        for lab in [d["primary"]] + list(d["secondary"]):
+                            if d["code"] == code and (lab.get("msg") or "").startswith("First") and lab["file"] in dict(files):
+                                ftext = dict(files)[lab["file"]]
+                                m_ = re.search(r"(?i)(?<![A-Za-z0-9_])%s(?![A-Za-z0-9_])" % re.escape(spellings[0]), ftext)
+                                first_off = len(ftext[:m_.start()].encode("utf-8")) if m_ else None
+                                if first_off is not None and lab["start"] != first_off:
+                                    res.violation("label-elsewhere", "label:first-occurrence:%s" % code,
+                                                  {"label_start": lab["start"], "first_occurrence": first_off,
+                                                   "message": lab.get("msg")}, case)
+                                    good = False
+                                    break
+                        if not good:
+                            break
+                    res.count("first-occurrence-checked")
                 if good:
                     res.distinct.add(core.key_of("diag", code, site))
                 if good and i % 4 == 1 and len(files) == 2:
